@@ -123,6 +123,14 @@ class StubSim(mosaik_api_v3.Simulator):
                     max_advance)
         if self.finalized:
             self.ctx.ev("X", self.sid, "request-after-finalize", "step", k)
+        if self.ctx.cfg.get("mutate_inputs"):
+            # a simulator that consumes its inputs destructively (pops what it has processed):
+            # the dictionaries it was handed are its own to change
+            for av in list(inputs.values()):
+                for kv in list(av.values()):
+                    kv.clear()
+                av.clear()
+            inputs.clear()
         yield from self._fault_point("step", k)
         if "step" in self.ctx.gate_kinds and self.ctx.gated and self.sid not in self.ctx.sync:
             yield self.ctx.loop.gate((self.sid, "step", k))
